@@ -107,13 +107,18 @@ def sim_part(ctx):
             c = allsims.gen_case(ctx.rng, sim)
             if c["init"]["kind"] not in ("list", "single"):
                 c["init"] = dict(kind="list", nodes=[0])
+            if sim == "fast_nonMarkov_SIS" and ctx.rng.random() < 0.5:
+                # tie-heavy deterministic rules: integer durations and delays, so that attempts coincide with
+                # recoveries and with each other; the outcome must still not depend on names / insertion order
+                c["dur"] = [[str(ctx.rng.randint(1, 4)) for _ in per] for per in c["dur"]]
+                c["delay"] = [[u, v, [[str(x) for x in sorted(ctx.rng.sample(range(1, 5), ctx.rng.choice([0, 1, 2, 3])))]
+                                      for _ in per]] for u, v, per in c["delay"]]
+                c["tmax"] = str(F(c["tmin"]) + ctx.rng.choice([4, 8, 12]))
+                ctx.count("sis:tie-heavy")
             base, G, idx = allsims.run_impl(c, rng=ctx.rng, full=True)
             if not base["ok"]:
                 continue
             times = [t for h in base["history"] for t, s in h[1:]]
-            if sim == "fast_nonMarkov_SIS" and len(times) != len(set(times)):
-                ctx.count("sis:skipped-simultaneous")
-                continue
             kind = KINDS[ctx.rng.randrange(len(KINDS))]
             labels = gen.relabel(ctx.rng, nx.empty_graph(c["n"]), kind)[1]
             c2 = dict(c)
